@@ -460,15 +460,23 @@ func GenPoolCall(r *lib.Rng) Call {
 	return c
 }
 
+// sampleItem is a list member: x, y, a list of numbers `vals` (multi-valued filter operands) and a nested n.
+func sampleItem(r *lib.Rng) DSpec {
+	vals := DSpec{K: "arr"}
+	for k := r.Intn(4); k > 0; k-- {
+		vals.A = append(vals.A, DSpec{K: "int", I: int64(1 + r.Intn(3))})
+	}
+	return DSpec{K: "obj", KS: []string{"x", "y", "vals", "in"}, A: []DSpec{{K: "int", I: int64(r.Intn(4))},
+		{K: "str", S: lib.Pick(r, []string{"a", "b", "cc"})}, vals,
+		{K: "obj", KS: []string{"n"}, A: []DSpec{{K: "int", I: int64(r.Intn(3))}}}}}
+}
+
 // sampleDoc is the data the shared expressions are evaluated on (private to the call).
 func sampleDoc(r *lib.Rng) DSpec {
-	item := func(x int64, y string) DSpec {
-		return DSpec{K: "obj", KS: []string{"x", "y"}, A: []DSpec{{K: "int", I: x}, {K: "str", S: y}}}
-	}
 	n := 1 + r.Intn(4)
 	l := DSpec{K: "arr"}
 	for i := 0; i < n; i++ {
-		l.A = append(l.A, item(int64(r.Intn(4)), lib.Pick(r, []string{"a", "b", "cc"})))
+		l.A = append(l.A, sampleItem(r))
 	}
 	return DSpec{K: "obj", KS: []string{"a", "l", "c", "o"}, A: []DSpec{
 		{K: "obj", KS: []string{"b"}, A: []DSpec{{K: "int", I: int64(r.Intn(10))}}},
@@ -482,7 +490,9 @@ func sampleDoc(r *lib.Rng) DSpec {
 func GenSharedCall(r *lib.Rng) Call {
 	op := lib.Pick(r, []string{"jp.Get", "jp.Get", "jp.First", "jp.Has", "jp.Set", "jp.Del", "script.Match", "script.Eval",
 		"alt.Decompose", "alt.Generify", "rec.Recompose", "rec.Board", "rec.Board", "rec.Nest", "rec.Nest", "oj.Unmarshal", "pretty.JSON", "pretty.SEN", "oj.JSON.opt",
-		"sen.String.opt", "oj.Validate", "oj.Tokenize", "oj.ValidateReader", "oj.TokenizeLoad", "sen.Parse", "alt.Alter", "alt.Dup", "jp.Remove"})
+		"sen.String.opt", "oj.Validate", "oj.Tokenize", "oj.ValidateReader", "oj.TokenizeLoad", "sen.Parse", "alt.Alter", "alt.Dup", "jp.Remove",
+		"sen.MustParse", "sen.ParseReader", "sen.MustParseReader", "oj.MustLoad", "oj.MustParseString", "oj.Marshal.opt", "oj.Write.opt", "sen.Write.opt",
+		"jp.Get", "script.Match", "alt.Decompose", "alt.Dup"})
 	c := Call{Op: op, Path: r.Intn(64), Val: int64(r.Intn(100))}
 	if op == "jp.First" {
 		// the first match of a wildcard or descent over a map depends on map order
@@ -495,19 +505,23 @@ func GenSharedCall(r *lib.Rng) Call {
 		d := sampleDoc(r)
 		c.Data = &d
 	case "script.Match":
-		d := DSpec{K: "obj", KS: []string{"x", "y"}, A: []DSpec{{K: "int", I: int64(r.Intn(4))}, {K: "str", S: lib.Pick(r, []string{"a", "b", "cc"})}}}
+		d := sampleItem(r)
 		c.Data = &d
 	case "script.Eval":
 		d := sampleDoc(r)
 		c.Data = &d.A[1]
-	case "alt.Decompose", "alt.Generify", "alt.Alter", "alt.Dup", "pretty.JSON", "pretty.SEN", "oj.JSON.opt", "sen.String.opt":
+	case "alt.Decompose", "alt.Generify", "alt.Alter", "alt.Dup", "pretty.JSON", "pretty.SEN", "oj.JSON.opt", "sen.String.opt",
+		"oj.Marshal.opt", "oj.Write.opt", "sen.Write.opt":
 		d := GenData(r, 3, true, false)
+		if r.Intn(4) == 0 { // time values, for the options that write them as maps
+			d = DSpec{K: "arr", A: []DSpec{{K: "time", I: int64(r.Intn(1000))}, d}}
+		}
 		c.Data = &d
 	case "rec.Recompose":
 		c.Data = &DSpec{K: "inner", S: lib.Pick(r, []string{"", "r"}), I: int64(r.Intn(9))}
-	case "oj.Unmarshal", "oj.Validate", "oj.Tokenize", "sen.Parse":
+	case "oj.Unmarshal", "oj.Validate", "oj.Tokenize", "sen.Parse", "sen.MustParse", "oj.MustParseString":
 		withInput(r, &c)
-	case "oj.ValidateReader", "oj.TokenizeLoad":
+	case "oj.ValidateReader", "oj.TokenizeLoad", "sen.ParseReader", "sen.MustParseReader", "oj.MustLoad":
 		withInput(r, &c)
 		c.Chunks = genChunks(r)
 	}
